@@ -108,6 +108,12 @@ func (g *gnServer) Serve(url string, header http.Header, body []byte) simhttp.Re
 		return simhttp.Reply{Status: 503, Body: strings.Repeat("x", 1000)}
 	case "hang":
 		return simhttp.Reply{Hang: true}
+	case "stall-ok":
+		// the endpoint has processed the request and said so (200); only the response body never arrives
+		r.Acked = true
+		return simhttp.Reply{Status: 200, Stall: true}
+	case "stall-500":
+		return simhttp.Reply{Status: 500, Stall: true}
 	case "reset":
 		return simhttp.Reply{Err: simhttp.ErrReset}
 	case "undecodable":
@@ -178,7 +184,7 @@ func scenC17(x *Exec) {
 	p.TimeoutMs = []int{1000, 200, 5000}[g.Pick(3)]
 	p.Blocking = g.Bool(0.4)
 	p.BackoffMin = []int{100, 10, 1000}[g.Pick(3)]
-	outcomes := []string{"ok", "ok", "ok", "ok-slow", "ok-badjson", "ok-invalid", "400", "500", "503", "hang", "reset"}
+	outcomes := []string{"ok", "ok", "ok", "ok-slow", "ok-badjson", "ok-invalid", "400", "500", "503", "hang", "reset", "stall-ok", "stall-500"}
 	for i, n := 0, g.Intn(25); i < n; i++ {
 		p.Script = append(p.Script, outcomes[g.Pick(len(outcomes))])
 	}
@@ -187,6 +193,12 @@ func scenC17(x *Exec) {
 	p.Shutdown = g.Bool(0.5)
 	p.Burst = !p.Blocking && g.Bool(0.4)
 	p.Early = p.Shutdown && g.Bool(0.5)
+	if p.Burst && cfg.PreemptP < 0.2 && g.Bool(0.7) {
+		// two dispatchers racing for the last free slot of a shard's queue: favour preemptive schedules
+		cfg.PreemptP = []float64{0.2, 0.6}[g.Pick(2)]
+		cfg.MaxBudget = []int{3, 10, 40}[g.Pick(3)]
+		cfg.SwitchP = 0.5
+	}
 	x.Out.Sample = p
 	cfg.Horizon = 6 * time.Hour
 	prop := "C17"
@@ -271,8 +283,28 @@ func scenC17(x *Exec) {
 			}
 		}
 		if p.Burst {
-			// fill the buffers far beyond their size: drops must be counted, dispatch must never stall
+			// fill the buffers far beyond their size: drops must be counted, dispatch must never stall - also not when two
+			// input connections hand metrics to the same shards at once (their points are not part of the acknowledgement
+			// accounting: a drop of theirs may be attributed to the main dispatcher, which only weakens that check)
+			d2done := false
+			nprobe := 3*p.BufSize + 10
+			s.Spawn("dispatcher2", "client", "harness", func() {
+				for i := 0; i < nprobe; i++ {
+					rt.Dispatch([]byte(fmt.Sprintf("gn.probe%d %d %d", i%3, i, 1600000000+i)))
+					simrt.Progress() // a completed hand-off: this task is not spinning, however many of them it does without waiting
+					simrt.Yield("dispatched2")
+				}
+				d2done = true
+				cond.Broadcast()
+			})
 			send(3*p.BufSize+10, true)
+			// with the server frozen and the clock stopped the second dispatcher must still get through all its hand-offs
+			srv.Frozen = true
+			s.GuardBegin("endpoint", 200000+100*nprobe)
+			cond.Wait(func() bool { return d2done }, time.Time{})
+			s.GuardEnd()
+			srv.Frozen = false
+			srv.cond.Broadcast()
 			s.Probe("c17.burst_beyond_buffer")
 		}
 		// after the last fault everything accepted must be acknowledged within a generous bound
@@ -287,7 +319,9 @@ func scenC17(x *Exec) {
 			for _, r := range srv.Requests {
 				if r.Acked {
 					for _, md := range r.Metrics {
-						m[fmt.Sprintf("%s@%d", md.Name, md.Time)] = true
+						if !strings.HasPrefix(md.Name, "gn.probe") { // the second dispatcher's points are not accounted for
+							m[fmt.Sprintf("%s@%d", md.Name, md.Time)] = true
+						}
 					}
 				}
 			}
